@@ -205,7 +205,7 @@ def check_size(chk, prog, eff, cache):
     # expected leaf lengths from the encoder tables: width -> bytes
     nleaf = 0
     sums = 0
-    for k, pa in enumerate(cache.get(f.name)):
+    for k, pa in enumerate(cache.get(f.name, inline_static=True)):
         st = pa.st
         tys_, iw_, fw_, _fl = CS_.summary(f, pa, ("arg", 0))
         if not tys_ or len(tys_) == 8:
